@@ -26,9 +26,10 @@ ACTIONS = ["OpBegin", "OpStep", "OpEnd", "RaiseBegin", "HandlerOld", "HandlerWri
 INVS_OF_BUG = [("norestore", "DispositionRestored"), ("handleronly", "DispositionRestored"), ("skipold", "OldHandlerChained"),
                ("skipplain", "OldHandlerChained"), ("firstonly", "EveryEnabledGetsOne"), ("oneshotstays", "OneShotAtMostOnce"),
                ("keepfd", "CtxConsistent"), ("perloop", "CtxConsistent"), ("liveiter", "EveryEnabledGetsOne"),
-               ("cap1", "EveryEnabledGetsOne")]
-QUICK_BUGS = ("norestore", "skipold", "firstonly", "oneshotstays", "liveiter", "cap1")
-KINDS = ["info", "plain", "ign", "dfl"]
+               ("cap1", "EveryEnabledGetsOne"), ("laterestore", "CtxConsistent")]
+QUICK_BUGS = ("norestore", "skipold", "firstonly", "oneshotstays", "liveiter", "cap1", "laterestore")
+KINDS = ["info", "plain", "ign", "dfl", "inforh", "plainrh"]     # rh: installed with SA_RESETHAND (+ other flags, masks)
+NORAISE = ("dfl", "inforh", "plainrh")                            # never raised while nobody is subscribed
 VIAS = ["main", "self", "async", "step"]
 ENGINES = ["epoll", "select"]
 
@@ -43,6 +44,9 @@ def decorate(rnd, n, ev, ops):
             out.append({"o": "raise", "a": o["a"], "via": via, "t": rnd.randint(1, n) if via in ("self", "async") else 0})
         elif o["o"] == "batch":
             out.append({"o": "batch", "a": o["a"], "ops": [{"o": x["o"], "a": x["a"]} for x in o["ops"]]})
+        elif o["o"] == "race":
+            out.append({"o": "race", "a": 0, "ops": [{"o": x["o"], "a": x["a"]} for x in o["ops"]],
+                        "da": o.get("da", rnd.randrange(8)), "db": o.get("db", rnd.randrange(256))})
         else:
             out.append({"o": o["o"], "a": o["a"]})
     ev = [dict(e, prog=[{"o": x["o"], "a": x["a"]} for x in e.get("prog", [])]) for e in ev]
@@ -74,7 +78,7 @@ def random_cb_script(rnd, nops):
                 if j != i and not set(ev[j]["sigs"]) & set(ev[i]["sigs"]) and rnd.random() < 0.3:
                     o = "destroy"                           # never an event that may be in the set being served
                 ev[i]["prog"].append({"o": o, "a": j + 1})
-    kind = [rnd.choice(["info", "plain", "ign", "ign", "dfl"]) for _ in range(3)]
+    kind = [rnd.choice(["info", "plain", "ign", "ign", "dfl", "inforh", "plainrh"]) for _ in range(3)]
     st = ["off"] * nev
     held, pending = set(), {}
 
@@ -98,7 +102,7 @@ def random_cb_script(rnd, nops):
         if r < 0.36:
             s = rnd.randint(1, 3)
             subscribed = any(st[i] == "on" and s in ev[i]["sigs"] for i in range(nev))
-            if not subscribed and (kind[s - 1] == "dfl" or rnd.random() < 0.6):
+            if not subscribed and (kind[s - 1] in NORAISE or rnd.random() < 0.6):
                 continue
             ops.append({"o": "raise", "a": s})
             for L in range(1, n + 1):
@@ -128,6 +132,15 @@ def random_cb_script(rnd, nops):
                 o = rnd.choice(["enable", "enable", "disable", "disable", "destroy"])
                 b.append({"o": o, "a": j + 1}); apply(L, o, j)
             ops.append({"o": "batch", "a": L, "ops": b})
+        elif r < 0.76:
+            a, b = rnd.randrange(nev), rnd.randrange(nev)       # two loops, one call each, at the same time
+            if ev[a]["L"] == ev[b]["L"] or ev[a]["L"] in held or ev[b]["L"] in held or "absent" in (st[a], st[b]):
+                continue
+            pair = []
+            for j in (a, b):
+                o = rnd.choice(["enable", "disable", "disable", "destroy"] if st[j] == "on" else ["enable", "enable", "disable"])
+                pair.append({"o": o, "a": j + 1}); apply(ev[j]["L"], o, j)
+            ops.append({"o": "race", "ops": pair})
         else:
             e = rnd.randrange(nev)
             if ev[e]["L"] in held:
@@ -215,7 +228,7 @@ def random_script(rnd, nops, wide=False):
         if r < 0.34:
             s = rnd.randint(1, 3)
             subscribed = any(st[i] == "on" and s in ev[i]["sigs"] for i in range(nev))
-            if not subscribed and (kind[s - 1] == "dfl" or rnd.random() < 0.5):
+            if not subscribed and (kind[s - 1] in NORAISE or rnd.random() < 0.5):
                 continue                                    # default action would end the process / keep idle raises rarer
             ops.append({"o": "raise", "a": s})
             for i in range(nev):
@@ -260,6 +273,37 @@ def wide_scripts(rnd):
     return out
 
 
+def race_scripts(rnd, rounds):
+    """Two loops take turns on one signal: in every round the loop whose event is enabled disables it (its last subscription
+    of S: restore + erase of the table entry) while the other loop enables its event (first subscription of S: install +
+    save), both released together from a barrier with a swept start offset.  Whatever the order, afterwards exactly one
+    event is enabled: every fourth round a delivery must reach it once (and the pre-existing handler once); at the end the
+    original disposition must be back.  Keeper events on another signal keep both pipes open."""
+    out = []
+    for i, (e1, e2) in enumerate([(a, b) for a in ENGINES for b in ENGINES] + [("epoll", "epoll"), ("epoll", "epoll")]):
+        s0 = i % 3 + 1
+        sk = s0 % 3 + 1
+        ev = [{"L": 1, "sigs": [s0], "os": False, "prog": []}, {"L": 2, "sigs": [s0], "os": False, "prog": []},
+              {"L": 1, "sigs": [sk], "os": False, "prog": []}, {"L": 2, "sigs": [sk], "os": False, "prog": []}]
+        ops = [{"o": "enable", "a": 3}, {"o": "enable", "a": 4}, {"o": "enable", "a": 1}]
+        base = rnd.randrange(256)
+        for r in range(rounds):
+            off, on = (1, 2) if r % 2 == 0 else (2, 1)
+            ops.append({"o": "race", "ops": [{"o": "disable", "a": off}, {"o": "enable", "a": on}],
+                        "da": (r // 64 + i) % 8, "db": (base + 5 * r) % 256})
+            if r % 4 == 3:
+                ops.append({"o": "raise", "a": s0})
+        ops += [{"o": "raise", "a": s0}, {"o": "disable", "a": 1}, {"o": "disable", "a": 2}]
+        sc = decorate(rnd, 2, ev, ops)
+        sc["eng"] = [e1, e2]
+        sc["kind"][s0 - 1] = rnd.choice(["info", "plain", "inforh", "plainrh"])
+        for o in sc["ops"]:
+            if o["o"] == "raise" and o["via"] == "step":
+                o["via"] = "main"
+        out.append(sc)
+    return out
+
+
 def script_of_trace(lines):
     """--replay: rebuild the driver script from a recorded execution."""
     sc = None
@@ -278,6 +322,10 @@ def script_of_trace(lines):
             sc["ops"].append({"o": e["e"], "a": e["ev"]})
         elif e["e"] == "raise":
             sc["ops"].append({"o": "raise", "a": e["s"], "via": e["via"], "t": e["t"]})
+        elif e["e"] == "noraise":
+            sc["ops"].append({"o": "raise", "a": e["s"], "via": "main", "t": 0})
+        elif e["e"] == "race":
+            sc["ops"].append({"o": "race", "a": 0, "ops": e["ops"], "da": 0, "db": 0})
         elif e["e"] in ("hold", "release"):
             sc["ops"].append({"o": e["e"], "a": e["L"]})
         elif e["e"] == "batch":
@@ -445,6 +493,7 @@ def run(ctx):
     nwide = nexec // 4                                            # a quarter of them with 5-8 loops sharing a signal
     rscripts = wide_scripts(rnd) + [random_script(rnd, nops, wide=i < nwide) for i in range(nexec)]
     rscripts += cb_scripts(rnd) + [random_cb_script(rnd, nops) for _ in range(nexec // 2)]   # callbacks that (un)subscribe, batches, held loops
+    rscripts += race_scripts(rnd, 160 if ctx.quick() else 1200)   # concurrent last-unsubscribe / first-subscribe of two loops
     rnd.shuffle(rscripts)                                         # spread the expensive ones over the shards
     ok, tr = run_scripts(ctx, exe, rscripts, "random", "%d random histories of %d steps" % (len(rscripts), nops), False)
     if ok:
